@@ -506,14 +506,8 @@ func innerEqualType(type1, type2 SessionType, snapshots map[string]bool, labelle
 			}
 		}
 
-		// Add new snapshot
-		var newSnapshot bytes.Buffer
-		newSnapshot.WriteString(type1.String())
-		newSnapshot.WriteString(type1.Modality().String())
-		newSnapshot.WriteString("|")
-		newSnapshot.WriteString(type2.String())
-		newSnapshot.WriteString(type2.Modality().String())
-		snapshots[newSnapshot.String()] = true
+		// Record the pair being compared (as it was looked up above, before any expansion)
+		snapshots[presentSnapshot.String()] = true
 
 		return innerEqualType(type1, type2, snapshots, labelledTypesEnv)
 	}
